@@ -9,9 +9,12 @@ from harness import lib_c05 as L
 from harness.props import c05
 
 ML = "spox.opset.ai.onnx.ml.v3"
-def call(mod, op, vars_, args, attrs=None):
-    return {"module": mod, "op": op, "vars": [{"ty": t, "const": None} for t in vars_], "args": args,
-            "attrs": attrs or {}, "out_count": None, "family": "witness"}
+def call(mod, op, vars_, args, attrs=None, sub=None, out_count=None):
+    c = {"module": mod, "op": op, "vars": [{"ty": t, "const": None} for t in vars_], "args": args,
+         "attrs": attrs or {}, "out_count": out_count, "family": "witness"}
+    if sub:
+        c["sub"] = sub
+    return c
 T = lambda e, s: {"t": e, "s": s}
 W = [
  ("ml.v3.ArrayFeatureExtractor", call(ML, "ArrayFeatureExtractor", [T(10, [4, 3]), T(7, [2])], [0, 1]), "known", None),
@@ -33,6 +36,16 @@ W = [
  ("ml.v3.TreeEnsembleRegressor", call(ML, "TreeEnsembleRegressor", [None], [0]), "known", None),
  ("v17.BatchNormalization", call("spox.opset.ai.onnx.v17", "BatchNormalization",
     [T(1, [2, 3, 4, 4]), T(1, [3]), T(1, [3]), T(1, [3]), T(1, [3])], [0, 1, 2, 3, 4]), "known", None),
+ ("v19.Loop", call("spox.opset.ai.onnx.v19", "Loop", [T(9, []), T(1, [2])], [None, 0, [1]],
+    sub={"carried": ["same"], "scan": []}, out_count=1), "known", None),
+ ("v19.Loop", call("spox.opset.ai.onnx.v19", "Loop", [T(9, [1]), T(1, [2])], [None, 0, [1]],
+    sub={"carried": ["same"], "scan": []}, out_count=1), "known", None),
+ ("v17.Loop", call("spox.opset.ai.onnx.v17", "Loop", [T(9, [1]), T(1, [2])], [None, 0, [1]],
+    sub={"carried": ["same"], "scan": []}, out_count=1), "known", None),
+ ("v17.Loop", call("spox.opset.ai.onnx.v17", "Loop", [None, T(1, [2])], [None, None, [0]],
+    sub={"carried": [1], "scan": []}, out_count=1), "known", None),
+ ("v17.Loop", call("spox.opset.ai.onnx.v17", "Loop", [None, T(1, [None, "K"])], [0, None, [1]],
+    sub={"carried": ["same"], "scan": []}, out_count=1), "known", None),
  ("v17.Compress", call("spox.opset.ai.onnx.v17", "Compress", [None, T(9, ["K"])], [0, 1]), "fixed: 0124c20",
   "untyped-input-raises:Compress:TypeError"),
 ]
